@@ -44,7 +44,9 @@ def gen_cases_for(seed_, n):
         full = rng.random() < 0.5
         reg = gen.STR_TYPES if full else gen.STR_TYPES[:3]
         nf = rng.randint(1, 5)
-        keys = rng.sample(["alpha", "beta", "gamma", "delta", "userId", "first-name", "class", "id", "created", "value", "tags", "misc"], nf + 2)
+        keys = rng.sample(["alpha", "beta", "gamma", "delta", "userId", "first-name", "class", "id", "created", "value", "tags", "misc",
+                           # names a framework renames on its own (attrs: self; pydantic: json, copy), keyword / builtin spellings
+                           "self", "json", "from", "type"], nf + 2)
         spec = []
         for k in keys[:nf]:
             spec.append((k, rng.choice(PATHS).split("."), rng.choice(reg)))
